@@ -186,6 +186,141 @@ void* task_main(void* arg) {
 }
 } // namespace
 
+
+// ------------------------------------------------------------------------------------------------ pristine solo server
+// The solo-replay oracle must be free of call history: "the same call alone" means alone in a process that has never
+// called the library. A server process is forked before the first library call; for every request it forks a grandchild
+// from its pristine state, which executes the one operation in a clean environment and reports the result.
+namespace {
+int g_srv_req = -1, g_srv_rsp = -1;
+pid_t g_srv_pid = -1;
+bool write_all(int fd, const std::string& d) {
+  size_t off = 0;
+  while (off < d.size()) {
+    ssize_t w = write(fd, d.data() + off, d.size() - off);
+    if (w <= 0)
+      return false;
+    off += (size_t)w;
+  }
+  return true;
+}
+bool read_line(int fd, std::string& line) {
+  line.clear();
+  char ch;
+  for (;;) {
+    ssize_t r = read(fd, &ch, 1);
+    if (r <= 0)
+      return false;
+    if (ch == '\n')
+      return true;
+    line.push_back(ch);
+  }
+}
+void server_loop(int req, int rsp) {
+  std::string line;
+  while (read_line(req, line)) {
+    if (line == "QUIT")
+      break;
+    Case c = Case::parse(line);
+    fflush(stdout);
+    pid_t pid = fork();
+    if (pid == 0) {
+      signal(SIGVTALRM, watchdog_handler);
+      G.solo_pass = true;
+      G.forked = true;
+      TaskCtx ctx;
+      ctx.task = -2;
+      arm_watchdog(G.op_cpu_seconds);
+      Outcome o = run_op(strip_env_faults(c), ctx);
+      arm_watchdog(0);
+      std::string sum = o.summary;
+      for (auto& ch : sum)
+        if (ch == '\n' || ch == '|')
+          ch = ' ';
+      std::string out = "R " + hex64(o.digest) + " " + std::to_string(o.skipped ? 1 : 0) + " " + std::to_string(o.clause.empty() ? 0 : 1) + " " +
+                        std::to_string((long)ctx.yields_total) + " |" + sum + "\n";
+      write_all(rsp, out);
+      _exit(0);
+    }
+    int st = 0;
+    waitpid(pid, &st, 0);
+    if (!(WIFEXITED(st) && WEXITSTATUS(st) == 0))
+      write_all(rsp, "X crashed\n");
+    write_all(rsp, "END\n");
+  }
+  _exit(0);
+}
+} // namespace
+void start_solo_server() {
+  if (g_srv_pid > 0)
+    return;
+  int a[2], b[2];
+  if (pipe(a) != 0 || pipe(b) != 0)
+    return;
+  fflush(stdout);
+  fflush(stderr);
+  pid_t pid = fork();
+  if (pid == 0) {
+    close(a[1]);
+    close(b[0]);
+    server_loop(a[0], b[1]);
+  }
+  close(a[0]);
+  close(b[1]);
+  g_srv_req = a[1];
+  g_srv_rsp = b[0];
+  g_srv_pid = pid;
+}
+void stop_solo_server() {
+  if (g_srv_pid <= 0)
+    return;
+  write_all(g_srv_req, "QUIT\n");
+  close(g_srv_req);
+  close(g_srv_rsp);
+  int st;
+  waitpid(g_srv_pid, &st, 0);
+  g_srv_pid = -1;
+}
+// returns false if no server is available (caller falls back to an in-process solo execution)
+static bool solo_via_server(const Case& c, Outcome& o, long& yields) {
+  if (g_srv_pid <= 0)
+    return false;
+  std::string line = c.text();
+  for (auto& ch : line)
+    if (ch == '\n')
+      ch = ' ';
+  if (!write_all(g_srv_req, line + "\n"))
+    return false;
+  bool got = false, crashed = false;
+  std::string l;
+  while (read_line(g_srv_rsp, l)) {
+    if (l == "END")
+      break;
+    if (l.rfind("R ", 0) == 0) {
+      char dg[32];
+      int sk = 0, cl = 0;
+      long y = 0;
+      if (sscanf(l.c_str(), "R %31s %d %d %ld", dg, &sk, &cl, &y) == 4) {
+        o.digest = std::stoull(dg, nullptr, 16);
+        o.skipped = sk != 0;
+        if (cl)
+          o.clause = "(oracle clause failed in the solo execution too)";
+        yields = y;
+        auto bar = l.find('|');
+        o.summary = bar == std::string::npos ? "" : l.substr(bar + 1);
+        got = true;
+      }
+    } else if (l.rfind("X ", 0) == 0)
+      crashed = true;
+  }
+  if (crashed || !got) {
+    o.skipped = true; // the call does not even survive alone: the history run will report the crash itself
+    o.summary = "solo execution crashed";
+    yields = 1000;
+  }
+  return true;
+}
+
 RunOpts opts_for(const Plan& p) {
   RunOpts ro;
   ro.solo_oracle = p.meta.count("solo") && p.meta.at("solo") == "1";
@@ -205,15 +340,22 @@ RunResult run_plan(const Plan& pin, const RunOpts& ro, Stats* stats) {
   std::vector<std::vector<Outcome>> solo(p.tasks.size());
   std::vector<long> task_yields(p.tasks.size(), 0);
   if (ro.solo_oracle) {
-    G.solo_pass = true;
+    G.solo_pass = g_srv_pid <= 0;
     for (size_t t = 0; t < p.tasks.size(); t++)
       for (size_t i = 0; i < p.tasks[t].size(); i++) {
-        TaskCtx ctx;
-        ctx.task = -2; // not a scheduled task: no yield decisions
-        arm_watchdog(G.op_cpu_seconds);
-        solo[t].push_back(run_op(strip_env_faults(p.tasks[t][i]), ctx));
-        arm_watchdog(0);
-        task_yields[t] += (long)ctx.yields_total + 1;
+        Outcome so;
+        long sy = 0;
+        if (!solo_via_server(p.tasks[t][i], so, sy)) {
+          TaskCtx ctx;
+          ctx.task = -2; // not a scheduled task: no yield decisions
+          arm_watchdog(G.op_cpu_seconds);
+          so = run_op(strip_env_faults(p.tasks[t][i]), ctx);
+          arm_watchdog(0);
+          sy = (long)ctx.yields_total;
+        } else if (stats)
+          stats->hit("oracle.solo_in_pristine_process");
+        solo[t].push_back(so);
+        task_yields[t] += sy + 1;
         if (stats)
           stats->hit("oracle.solo_replays");
       }
@@ -302,7 +444,7 @@ RunResult run_plan(const Plan& pin, const RunOpts& ro, Stats* stats) {
         if (alone.digest != seen.digest) {
           res.v.push_back({(int)t, (int)i, p.prop + ".result_differs_from_solo_execution",
                            "operation [" + p.tasks[t][i].op() + " param=" + p.tasks[t][i].s("param") + "] returned (" + seen.summary + ") in the simulated history but (" + alone.summary +
-                               ") when executed alone in a clean environment"});
+                               ") when executed alone in a clean environment in a process without call history"});
           sh.loghash.str("solo-mismatch " + std::to_string(t) + "/" + std::to_string(i));
         }
       }
